@@ -117,3 +117,5 @@ func PanicDetail(err error) string {
 	}
 	return ""
 }
+
+func hashBytes(b []byte) uint64 { return rep.HashBytes(b) }
